@@ -1,11 +1,17 @@
 import Driver.Common
+import Driver.PureMarbles
+import Driver.PureSources
+import Driver.PureBridges
 open Lean Drv
 
+/-! `drv_pure`: one executable for the Pure family (C36, C37, C38, C41); dispatch on the op prefix. -/
 namespace DrvPure
 
-def handle (op : String) (_j : Json) : Except String Json := do
-  match op with
-  | _ => throw s!"unknown op {op}"
+def handle (op : String) (j : Json) : Except String Json :=
+  if op.startsWith "marbles_" then DrvPureMarbles.handle op j
+  else if op == "src" then DrvPureSources.handle op j
+  else if op.startsWith "br_" then DrvPureBridges.handle op j
+  else throw s!"unknown op {op}"
 
 end DrvPure
 
